@@ -10,7 +10,13 @@ Variants == << [axis |-> "YX", ns |-> 1, dtype |-> "uint8", comp |-> "deflate", 
                [axis |-> "YX", ns |-> 1, dtype |-> "float32", comp |-> "zstd", nodata |-> <<>>, chunks |-> <<20, 64>>, spill |-> 1, wpc |-> 3],
                [axis |-> "YXS", ns |-> 4, dtype |-> "uint16", comp |-> "deflate", nodata |-> <<0>>, chunks |-> <<64, 64>>, spill |-> 100000, wpc |-> 1],
                [axis |-> "SYX", ns |-> 1, dtype |-> "float64", comp |-> "lzw", nodata |-> <<>>, chunks |-> <<8, 32>>, spill |-> 4096, wpc |-> 2],
-               [axis |-> "YX", ns |-> 1, dtype |-> "int8", comp |-> "lzma", nodata |-> <<-1>>, chunks |-> <<48, 48>>, spill |-> 50, wpc |-> 1] >>
+               [axis |-> "YX", ns |-> 1, dtype |-> "int8", comp |-> "lzma", nodata |-> <<-1>>, chunks |-> <<48, 48>>, spill |-> 50, wpc |-> 1],
+               \* chunks <<0, 0>>: spatial chunks equal to the full-resolution tile (what dask users get by default);
+               \* schunk: chunk length along the sample / band axis (absent: one chunk), dividing the samples or not
+               [axis |-> "YXS", ns |-> 3, dtype |-> "uint8", comp |-> "deflate", nodata |-> <<>>, chunks |-> <<0, 0>>, spill |-> 0, wpc |-> 1, schunk |-> 1],
+               [axis |-> "YXS", ns |-> 4, dtype |-> "int16", comp |-> "zstd", nodata |-> <<-7>>, chunks |-> <<0, 0>>, spill |-> 2000, wpc |-> 2, schunk |-> 3],
+               [axis |-> "SYX", ns |-> 3, dtype |-> "uint16", comp |-> "deflate", nodata |-> <<>>, chunks |-> <<0, 0>>, spill |-> 0, wpc |-> 1, schunk |-> 2],
+               [axis |-> "YXS", ns |-> 2, dtype |-> "float32", comp |-> "lzw", nodata |-> <<>>, chunks |-> <<16, 48>>, spill |-> 0, wpc |-> 1, schunk |-> 1] >>
 WriteCases == {[h |-> s[1], w |-> s[2], blocks |-> b] @@ Variants[((s[1] + 3 * s[2] + Len(b) + b[1]) % Len(Variants)) + 1] @@ [vidx |-> k] : s \in Shapes, b \in BlockLists, k \in {0}}
               \cup {[h |-> s[1], w |-> s[2], blocks |-> b] @@ Variants[k] @@ [vidx |-> k] : s \in {<<45, 70>>, <<1, 40>>, <<33, 17>>}, b \in {<<32, 16>>, <<16>>}, k \in 1..Len(Variants)}
 VARIABLE c
